@@ -332,6 +332,19 @@ def cost(I, x, A, sq=False):
     return cs, cl
 
 
+def weighted_cost(I, x, A, y, zz, sq=False):
+    """y * (student cost) + zz * (lecturer cost), written so that it stays LINEAR when the weights are
+    symbolic: sum over pairs of  If(x = 1, y * r_s + zz * r_l, 0)"""
+    e = 2 if sq else 1
+    terms = []
+    for (s, p, r) in I.pairs():
+        w = (r ** e) * y
+        if I.twosided:
+            w = w + (I.lrank(I.lec(p), s) ** e) * zz
+        terms.append(A.If(A.b(x[(s, p)] == 1), w, 0))
+    return A.Sum(terms)
+
+
 def degree(I, x, A):
     d = 0
     for (s, p, r) in I.pairs():
@@ -383,8 +396,7 @@ def crit_key(I, x, crit, args, A):
     if crit in ('mincost', 'minsqcost'):
         y = args[0] if len(args) >= 1 else 1
         zz = args[1] if len(args) >= 2 else 0
-        cs, cl = cost(I, x, A, sq=(crit == 'minsqcost'))
-        return [-(cs * y + cl * zz)]
+        return [-weighted_cost(I, x, A, y, zz, sq=(crit == 'minsqcost'))]
     if crit == 'lmb':
         return [-maxdev(I, x, A)]
     if crit == 'lsb':
@@ -392,8 +404,7 @@ def crit_key(I, x, crit, args, A):
     if crit == 'mincostlsb':
         y = args[0] if len(args) >= 1 else 1
         zz = args[1] if len(args) >= 2 else 1
-        cs, _ = cost(I, x, A)
-        return [-(cs * y + sumdev(I, x, A) * zz)]
+        return [-(weighted_cost(I, x, A, y, 0) + sumdev(I, x, A) * zz)]
     raise ValueError(crit)
 
 
